@@ -33,6 +33,13 @@ func newEvil(e *end, r *rand.Rand, key *ecdsa.PrivateKey) *evil {
 	return m
 }
 
+// hangUp: the attacker has said everything: it closes its sending direction (the endpoint
+// sees the end of the stream after what was sent) and reads until the endpoint hangs up.
+func (m *evil) hangUp() {
+	m.e.out.closeWrite()
+	io.Copy(io.Discard, m.e)
+}
+
 func (m *evil) note(f string, a ...interface{}) { m.log = append(m.log, fmt.Sprintf(f, a...)) }
 
 // exchangeEph sends `raw` as first message (nil: the honest encoding of m.pub), reads the
@@ -157,7 +164,8 @@ func (h *hsHarness) judge(scn string, s *realSide, allowed ...string) bool {
 	run.Count("handshake_outcome:"+scn+":"+s.name+":"+out, 1)
 	wit := map[string]interface{}{"scenario": scn, "endpoint": s.name, "outcome": out, "allowed_identities": allowed, "notes": h.notes, "error": fmt.Sprint(s.res.err)}
 	if s.res.pan != nil {
-		h.c.Violation("handshake:"+scn+":panic", fmt.Sprintf("%s: MakeSecretConnection panicked: %v", scn, s.res.pan), wit)
+		wit["stack"] = s.res.stack
+		h.c.Violation("panic:"+core.PanicKey(s.res.stack), fmt.Sprintf("%s: MakeSecretConnection panicked: %v", scn, s.res.pan), wit)
 		return false
 	}
 	if s.res.err != nil {
